@@ -68,6 +68,44 @@ def _loop_bodies(f):
     return [l for l in walk_shallow(f) if isinstance(l, ast.For)]
 
 
+def record_snet_not_a_key(ctx):
+    """(C19.R6, also C06.R8) renumbering re-keys the router map and the path index but leaves the records' own `snet`
+    field as it was when the router was learned: that field must not be read as a network number anywhere (unless
+    update_source_network refreshes it on the records it moves)"""
+    prog = ctx.prog
+    m = prog.module(MOD)
+    ri = prog.cls(MOD, "RouterInfo")
+    cache = prog.cls(MOD, "RouterInfoCache")
+    init = ri.methods.get("__init__")
+    st = [s_ for t_, s_ in stores_in(init) if is_self_attr(t_, "snet")] if init else []
+    ctx.check("RouterInfo.snet:set-by-constructor", len(st) == 1, where(m, init or ri.node), "the record remembers the network it was learned on")
+    usn = cache.methods.get("update_source_network")
+    if usn is None:
+        raise AnchorMissing("RouterInfoCache.update_source_network")
+    refreshed = any(isinstance(n, ast.Attribute) and n.attr == "snet" and isinstance(n.ctx, ast.Store) for n in ast.walk(usn))
+    ctx.check("RouterInfoCache.update_source_network:record-field", True, where(m, usn), "records' snet field refreshed on renumbering: %s" % refreshed)
+    k = 0
+    for n in ast.walk(m.tree):
+        if isinstance(n, ast.Attribute) and n.attr == "snet" and isinstance(n.ctx, ast.Load) and not (isinstance(n.value, ast.Name) and n.value.id == "self" and _inside_class(n, ri)):
+            k += 1
+            ctx.check("RouterInfo.snet:read@%d" % k, refreshed, where(m, n),
+                      "%s is used as a network number, but a Network-Number-Is renumbering moves the record to another network without updating this field: the value is stale afterwards" % norm(n))
+
+
+def _inside_class(node, cls):
+    p = getattr(node, "_parent", None)
+    while p is not None:
+        if p is cls.node:
+            return True
+        p = getattr(p, "_parent", None)
+    return False
+
+
+@rule("C19.R6", "a router record's own source-network field is not used as a key: renumbering does not refresh it", floor=2, engines="E0 who-reads")
+def r6(ctx):
+    record_snet_not_a_key(ctx)
+
+
 @rule("C19.R2", "the router map and the path index are updated together: a path is recorded with its router's destination entry, dropped with it, and a router record disappears only when it has no destinations left",
       floor=6, engines="E1 paths over the mutators")
 def r2(ctx):
@@ -227,7 +265,14 @@ def r3(ctx):
         st = enclosing_stmt(news[0])
         var = norm(st.targets[0])
         reg = [s for s in walk_shallow(f) if isinstance(s, ast.Assign) and norm(s.targets[0]).startswith("self.routers[") and var in norm(s.value)]
-        ok = len(reg) >= 1
+        # ... under the keys the map is read with: routers[source network][router address]
+        sn, ad = f.args.args[1].arg, f.args.args[2].arg
+        ok = len(reg) >= 1 and all(
+            (norm(s.targets[0]) == "self.routers[%s][%s]" % (sn, ad) and norm(s.value) == var)
+            or (norm(s.targets[0]) == "self.routers[%s]" % sn and isinstance(s.value, ast.Dict) and len(s.value.keys) == 1 and norm(s.value.keys[0]) == ad and norm(s.value.values[0]) == var)
+            for s in reg)
+        rd = [x for x in calls_in(f) if isinstance(x.func, ast.Attribute) and x.func.attr == "get" and norm(x.func.value).startswith("self.routers.get(")]
+        ok = ok and all(norm(x.func.value.args[0]) == sn and norm(x.args[0]) == ad for x in rd)
     ctx.check("update_router_info:new-router-registered", ok, where(m, f), "a newly learned router must be entered in the router map")
     g = c.methods["get_router_info"]
     cs = [x for x in calls_in(g) if norm(x.func) == "self.path_info.get"]
